@@ -8,6 +8,22 @@ evaluated directly on the implementation.
 """
 import math
 from .common import *
+from translator import duccio2coq
+
+GEN_V = os.path.join(COQ, 'Gen', 'DuccioGen.v')
+
+
+def regenerate(ctx):
+    """translate DUCCIO.__call__ / BaseRegularizer.__call__ of the tree under test into Gen/DuccioGen.v (written only when it
+    changed).  -> None, or the reason why the translator refused the source (the file then fails on purpose)"""
+    try:
+        text, rej = duccio2coq.translate_repo(REPO), None
+    except (duccio2coq.Reject, SyntaxError, OSError) as e:
+        rej = '%s: %s' % (type(e).__name__, e)
+        text = ('(* translator/duccio2coq.py REFUSED plinio/regularizers of the tree under test:\n   %s\n   no model of the current code exists; this file fails on purpose. *)\n'
+                'Definition translator_rejected : True := 0.\n' % rej.replace('*)', '* )').replace('(*', '( *'))
+    write_if_changed(GEN_V, text)
+    return rej
 
 
 def _env():
@@ -42,7 +58,12 @@ def gen_metrics(rng, k):
 
 def run(ctx):
     torch, DUCCIO, BaseRegularizer = _env()
+    gen_rejected = regenerate(ctx)
+    if gen_rejected:
+        ctx.notes.append('generated model: the translator refused the source: ' + gen_rejected)
     built = ctx.build()
+    ctx.extra['generated_model'] = {'file': 'coq/Gen/DuccioGen.v', 'translator': 'translator/duccio2coq.py', 'source': 'plinio/regularizers/duccio.py, base_regularizer.py',
+                                    'status': 'refused: ' + gen_rejected if gen_rejected else 'regenerated; equal to the hand model and every division defined (C19_generated_*)' if built else 'regenerated; obligations do not check'}
     ctx.rule = ('every (epoch, n_epochs) with 0<=epoch<=n_epochs<=50 x seeded sets of 1..3 metrics (dyadic strengths/costs/targets, cost above/at/below target), '
                 'given and task-loss-derived strengths, default arguments, BaseRegularizer, two real PIT models; non-trivial = at least one cost above target; '
                 'distinct = distinct (metrics, epoch, n_epochs, mode)')
@@ -240,6 +261,13 @@ def run(ctx):
                 ctx.corr += 1
                 if not close(c['impl'], mv):
                     mism.append(('value', c, float(mv)))
+            # the GENERATED model (DUCCIO.__call__ translated on this run) on the finite-target cases
+            gc = [c for c in cases if 'opt' not in c]
+            gv = ctx.coq_eval_sharded('gcases', ['Plinio.Model.Duccio', 'Plinio.Gen.DuccioGen'], '', ['run_duccio_gen %s %s %s' % (coq(c['ms']), coq(c['e']), coq(c['n'])) for c in gc], shard=500)
+            for c, (num, den) in zip(gc, gv):
+                ctx.corr += 1
+                if not close(c['impl'], Fraction(num, den)):
+                    mism.append(('value (generated model)', c, float(Fraction(num, den))))
             # gradients: eff if cost > target else 0 (ties skipped: torch.maximum splits the gradient there)
             gcases = [(c, i) for c in cases if c['grads'] for i, m in enumerate(c['ms']) if m[1] != m[2]]
             gcases = gcases[:1500]
@@ -255,6 +283,10 @@ def run(ctx):
                 for m in dcase['ms']:
                     dex.append('run_derive %s %s %s' % (coq(dcase['task']), coq(m[1]), coq(m[2])))
             dvals = ctx.coq_eval_sharded('derive', ['Plinio.Model.Duccio'], '', dex, shard=500)
+            gdvals = ctx.coq_eval_sharded('gderive', ['Plinio.Model.Duccio', 'Plinio.Gen.DuccioGen'], '', [x.replace('run_derive ', 'run_derive_gen ', 1) for x in dex], shard=500)
+            if gdvals != dvals:
+                k0 = next(i for i, (a, b) in enumerate(zip(dvals, gdvals)) if a != b)
+                mism.append(('derived-strength (generated model differs from the hand model)', {'expr': dex[k0]}, float(Fraction(*gdvals[k0]))))
             k = 0
             for dcase in derived:
                 for j, m in enumerate(dcase['ms']):
@@ -284,8 +316,12 @@ def run(ctx):
 
     # ---- report
     if not ctx.violations:   # a printed KNOWN-FINDING must not hide a broken proof / model / correspondence
-        if not built:
-            ctx.violation('proof-broken', {'theorems': [o[0] for o in ctx.obligations if not o[1]], 'log': getattr(ctx, 'broken_log', '')[-3000:]}, 'Props/C19.v no longer checks', no_input=True)
+        if not built and gen_rejected:
+            ctx.violation('translator-rejected', {'translator': 'translator/duccio2coq.py', 'source': 'plinio/regularizers', 'reason': gen_rejected, 'theorems': [o[0] for o in ctx.obligations if not o[1]]},
+                          'the source of the regularizers is outside the subset the translator accepts (%s): no generated model, the C19_generated_* theorems are not established' % gen_rejected[:300], no_input=True)
+        elif not built:
+            ctx.violation('proof-broken', {'theorems': [o[0] for o in ctx.obligations if not o[1]], 'log': getattr(ctx, 'broken_log', '')[-3000:]},
+                          'Props/C19.v no longer checks (the model generated from the current source may no longer equal the hand-written one, or divides by a possibly zero quantity: Proofs/DuccioGen.v)', no_input=True)
         elif not model_ok:
             ctx.violation('model-eval-broken', {'notes': ctx.notes}, 'the model could not be evaluated', no_input=True)
         elif mism:
